@@ -18,6 +18,7 @@ func init() {
 			{ID: "C11-R2", Doc: "slicing/grow arithmetic", Run: c11r2},
 			{ID: "C11-R3", Doc: "untyped fast paths guarded by size and pointer-ness", Run: c11r3},
 			{ID: "C11-R4", Doc: "pointer-free kind tables agree", Run: c11r4},
+			{ID: "C11-R5", Doc: "zeroing writes exactly n elements", Run: c11r5},
 		},
 	})
 }
@@ -740,4 +741,119 @@ func c11r4(c *RC) {
 		c.Check(!in(pk, bad) && !in(zk, bad), "pointer-free-tables|excludes:"+bad, pr.Pos(p.Body.Pos()), bad+" is listed as pointer-free")
 	}
 	c.Check(pa && ps && za && zs, "frame.pointers~zero.isValueType|recurse-into-arrays-and-structs", pr.Pos(p.Body.Pos()), "Array/Struct kinds no longer recurse into their element/field types in both tables")
+}
+
+// c11r5: every zeroing closure of internal/zero overlays a slice on the
+// destination whose length in bytes is exactly n elements of the column type.
+func c11r5(c *RC) {
+	pr := c.P
+	sizes := types.SizesFor("gc", "amd64")
+	if pr.Deps.GoArch == "386" {
+		sizes = types.SizesFor("gc", "386")
+	}
+	nsites := 0
+	for _, name := range []string{"internal/zero.slice", "internal/zero.sliceValue"} {
+		host := c.MustFn(name)
+		if host == nil {
+			continue
+		}
+		// the case constant governing each literal (sliceValue: switch size)
+		caseOf := map[*ast.FuncLit]string{}
+		ast.Inspect(host.Body, func(n ast.Node) bool {
+			cc, ok := n.(*ast.CaseClause)
+			if !ok {
+				return true
+			}
+			label := "default"
+			if len(cc.List) == 1 {
+				label = expr(cc.List[0])
+			}
+			ast.Inspect(cc, func(m ast.Node) bool {
+				if l, ok := m.(*ast.FuncLit); ok {
+					caseOf[l] = label
+					return false
+				}
+				return true
+			})
+			return true
+		})
+		for _, lit := range host.Lits {
+			nParam := ""
+			if len(lit.Type.Params.List) == 2 && len(lit.Type.Params.List[1].Names) == 1 {
+				nParam = lit.Type.Params.List[1].Names[0].Name
+			}
+			// var X []T ; XHdr := (*reflect.SliceHeader)(unsafe.Pointer(&X))
+			var elem types.Type
+			hdr := ""
+			ast.Inspect(lit.Body, func(n ast.Node) bool {
+				if a, ok := n.(*ast.AssignStmt); ok && len(a.Lhs) == 1 && len(a.Rhs) == 1 && strings.Contains(expr(a.Rhs[0]), "reflect.SliceHeader") && strings.Contains(expr(a.Rhs[0]), "unsafe.Pointer(&") {
+					hdr = expr(a.Lhs[0])
+					ast.Inspect(a.Rhs[0], func(m ast.Node) bool {
+						if u, ok := m.(*ast.UnaryExpr); ok && u.Op == token.AND {
+							if tv := lit.Pkg.Info.Types[u.X]; tv.Type != nil {
+								if sl, ok := tv.Type.Underlying().(*types.Slice); ok {
+									elem = sl.Elem()
+								}
+							}
+						}
+						return true
+					})
+				}
+				return true
+			})
+			if hdr == "" || elem == nil {
+				continue
+			}
+			nsites++
+			key := fmt.Sprintf("%s|case %s|overlay-length", lit.QName(), caseOf[lit.Lit])
+			var lenE, capE string
+			ast.Inspect(lit.Body, func(n ast.Node) bool {
+				if a, ok := n.(*ast.AssignStmt); ok && len(a.Lhs) == 1 && len(a.Rhs) == 1 {
+					switch expr(a.Lhs[0]) {
+					case hdr + ".Len":
+						lenE = strings.ReplaceAll(expr(a.Rhs[0]), " ", "")
+					case hdr + ".Cap":
+						capE = strings.ReplaceAll(expr(a.Rhs[0]), " ", "")
+					}
+				}
+				return true
+			})
+			esz := sizes.Sizeof(elem)
+			okLen := false
+			label := caseOf[lit.Lit]
+			switch {
+			case lenE == nParam:
+				// n elements of the overlay type: its size must be the governed size
+				if v, err := parseInt(label); err == nil {
+					okLen = v == esz
+				} else {
+					okLen = true // kind-governed closures (string, slice, pointer): overlay type is the kind's representation
+					if strings.Contains(label, "String") {
+						okLen = typeString(elem) == "string"
+					} else if strings.Contains(label, "Slice") {
+						okLen = esz == sizes.Sizeof(types.NewSlice(types.Typ[types.Int]))
+					} else if strings.Contains(label, "Ptr") || strings.Contains(label, "Pointer") {
+						okLen = esz == sizes.Sizeof(types.Typ[types.UnsafePointer])
+					} else {
+						okLen = false
+					}
+				}
+			case esz == 1 && (lenE == "int(size)*"+nParam || lenE == nParam+"*int(size)"):
+				okLen = true
+			}
+			okCap := capE == lenE || capE == hdr+".Len" || capE == nParam && lenE == nParam
+			c.Check(okLen && okCap, key, pr.Pos(lit.Body.Pos()),
+				fmt.Sprintf("the zeroing overlay is []%s with Len=%s Cap=%s for case %s: it does not cover exactly n elements of the column type, so Frame.Zero clears bytes of rows after the view (or leaves a tail uncleared)", typeString(elem), lenE, capE, label))
+		}
+	}
+	c.Floor("zeroing overlays in internal/zero", nsites, 8)
+}
+
+func parseInt(s string) (int64, error) {
+	var v int64
+	_, err := fmt.Sscanf(s, "%d", &v)
+	if err == nil && fmt.Sprint(v) != s {
+		return 0, fmt.Errorf("not an int")
+	}
+	return v, err
 }
